@@ -164,9 +164,39 @@ func sweepPlan(seed uint64, g int) *Plan {
 	return p
 }
 
+// sweepPlanRace is run g of the systematic part of the race phase: two callers
+// detect the same corpus entries at the same time, from buffers they share
+// (read-only for everybody, so that a write by the library is a race) and through
+// readers; whatever a detector keeps at package level is touched by both.
+func sweepPlanRace(seed uint64, g int) *Plan {
+	n := len(inputs.Corpus())
+	chunks := (n + sweepChunk - 1) / sweepChunk
+	if n == 0 || g >= chunks {
+		return nil
+	}
+	r := core.NewRand(core.Mix(seed, 0x5eec05, uint64(g)))
+	p := &Plan{Prop: "C04", Limit0: []uint32{3072, 0, 64}[g%3], MaxSteps: 60000000, Pool: "steal",
+		Sched: core.SchedSpec{Kind: "random"}}
+	var a, b []Op
+	for e := g * sweepChunk; e < (g+1)*sweepChunk && e < n; e++ {
+		in := inputs.Input{Fam: "corpus", V: e}
+		p.Shared = append(p.Shared, in)
+		k := len(p.Shared)
+		a = append(a, Op{Kind: "detect", In: &in, Shared: k}, Op{Kind: "reader", In: &in, Del: randDelivery(r, len(in.Bytes()), 0)})
+		b = append(b, Op{Kind: "reader", In: &in, Del: randDelivery(r, len(in.Bytes()), 0)}, Op{Kind: "detect", In: &in, Shared: k})
+	}
+	p.Tasks = [][]Op{a, b}
+	return p
+}
+
 func (c *c04) Plan(seed uint64, tier string, worker, workers, idx int) *Plan {
 	if sp := sweepPlan(seed, worker+idx*workers); sp != nil && idx < 1000000 {
 		return sp
+	}
+	if idx >= 10000000 && idx < 11000000 {
+		if sp := sweepPlanRace(seed, worker+(idx-10000000)*workers); sp != nil {
+			return sp
+		}
 	}
 	r := core.NewRand(core.Mix(seed, 0xc04, uint64(worker), uint64(idx)))
 	p := &Plan{Prop: "C04", Limit0: c04Limits[r.Intn(len(c04Limits))], MaxSteps: 60000000}
